@@ -54,6 +54,15 @@ func (l *lookup) Get(key string) Value {
 	return l.data[n]
 }
 
+// Peek reads a key without creating it: a host that asks for a name (an optional hook, a probe) must not define it -
+// a defined package-level name hides the builtin of that spelling in every script compiled later
+func (l *lookup) Peek(key string) Value {
+	if n, ok := l.keyToIndex[key]; ok {
+		return l.data[n]
+	}
+	return Value{}
+}
+
 // Index returns the index of the key, creating it if required
 func (l *lookup) Index(key string) int {
 	n, ok := l.keyToIndex[key]
